@@ -349,6 +349,16 @@ impl NodeSuite {
                 let ev = self.collect(i);
                 Some(format!("{} | {}", ev, self.state(i)))
             }
+            "nseal" => {
+                // nseal <i> <addr> <hex plaintext | ->: node i, as a key holder, seals a raw plaintext (no type byte) for its peer
+                let i: u16 = t.get(1)?.parse().ok()?;
+                let a = parse_addr(t.get(2)?)?;
+                let data = if *t.get(3)? == "-" { vec![] } else { unhex(t.get(3)?)? };
+                let sn = self.nodes.get_mut(&i)?;
+                let ok = with_node!(&mut sn.node, n, { n.v_seal_raw(a, &data) });
+                let ev = self.collect(i);
+                Some(format!("{}{} | {}", if ok { "" } else { "nopeer " }, ev, self.state(i)))
+            }
             "nhk" => {
                 let i: u16 = t.get(1)?.parse().ok()?;
                 let sn = self.nodes.get_mut(&i)?;
